@@ -137,7 +137,8 @@ pub fn rand_cfg(rng: &mut Rng, p: &Profile) -> DeployCfg {
             spread,
             fluct,
             // mostly the fixtures' hourly / daily periods, but also periods that are not a whole number of hours
-            funding_period: *rng.pick(&[3600u64, 86400, 3600, 86400, 1800, 5400, 2700]),
+            // ... and periods that do not divide a day (7 h, 10 h, 1000 min) or exceed it (2 days)
+            funding_period: *rng.pick(&[3600u64, 86400, 3600, 86400, 1800, 5400, 2700, 25200, 36000, 60000, 172800]),
             decimals: None,
             live: true,
             unwired: false,
